@@ -238,10 +238,30 @@ def move_staticmethod_static_scope(source: str, preserve: Collection[str]) -> st
                 names_read_in_class.update(
                     name.id for name in core.walk(part, ast.Name(ctx=ast.Load))
                 )
+        # Names that the class body binds, as seen by what is evaluated there
+        names_bound_in_class = (
+            {name.id for name in core.walk(classdef, ast.Name(ctx=ast.Store))}
+            | {
+                node.name
+                for node in core.filter_nodes(
+                    classdef.body, (ast.FunctionDef, ast.AsyncFunctionDef, ast.ClassDef)
+            )}
+            | {
+                (alias.asname or alias.name).split(".")[0]
+                for node in core.walk(classdef, (ast.Import, ast.ImportFrom))
+                for alias in node.names
+        })
         for funcdef in parsing.iter_funcdefs(classdef):
             if funcdef.name in attributes_to_preserve or funcdef.name in preserve:
                 continue
             if funcdef.name in names_read_in_class:
+                continue
+            # Decorators, default values and annotations are evaluated in the class body
+            if any(
+                name.id in names_bound_in_class
+                for part in filter(None, (*funcdef.decorator_list, funcdef.args, funcdef.returns))
+                for name in core.walk(part, ast.Name)
+            ):
                 continue
             if f"{classdef.name}.{funcdef.name}" in preserve:
                 continue
